@@ -146,12 +146,20 @@ func runC13(s *core.Sim, tier string) RunInfo {
 	// fine): the request ends with a header some peer validly sent, or with an error
 	stopped := s.Tape.Coin("exchange-stopped-mid-request", 1, 6)
 	var stopT *core.Task
+	restartAtOnce := stopped && s.Tape.Coin("exchange-restarted-at-once", 1, 2)
+	if restartAtOnce {
+		s.Probe("exchange-restarted-mid-request")
+	}
 	if stopped {
 		stopT = s.Go("exchange-stop", func() {
 			s.YieldAfter("stop-after", time.Duration(s.Tape.Draw("stop-after-ms", 400))*time.Millisecond)
 			c, cancel := context.WithTimeout(context.Background(), time.Minute)
 			defer cancel()
 			_ = w.Ex.Stop(c)
+			if restartAtOnce {
+				// ... and started again at once (a restart of the component, the request still in flight)
+				_ = w.Ex.Start(c)
+			}
 		})
 		desc = append(desc, "Exchange stopped mid-request")
 		s.Probe("exchange-stopped-mid-request")
@@ -199,7 +207,9 @@ func runC13(s *core.Sim, tier string) RunInfo {
 	}
 	if stopped {
 		s.Settle(2*time.Minute, stopT)
-		w.Ex = nil // stopped already
+		if !restartAtOnce {
+			w.Ex = nil // stopped already
+		}
 		if t.Panic != nil {
 			s.Violate("panic", map[string]string{"op": op, "racing": "stop"}, "%s panicked while the Exchange was being stopped: %v\n%s", op, t.Panic, t.Stack)
 		} else if !fin {
